@@ -483,3 +483,38 @@ func (g *Gen) directInitBig(ds []int) {
 	}
 	g.tag("direct-big-init")
 }
+
+
+// reprobe: at the end of every scenario, look again at tensors created earlier (shape, element count and a full
+// copy through Slice(nil)).  An operation that changed an existing tensor behind the caller's back (an aliased
+// dims slice written in place, a memo carried over to a copy, ...) shows up here as a difference from the model,
+// in which values are immutable.
+func (g *Gen) reprobe() {
+	ts := g.tensors()
+	if len(ts) == 0 {
+		return
+	}
+	budget := 10
+	// later commands may panic on a corrupted tensor: that is an observation too (recover() in the runner)
+	for len(ts) > 0 && budget > 0 {
+		k := g.intn(len(ts))
+		i := ts[k]
+		ts = append(ts[:k], ts[k+1:]...)
+		if prod(g.shapeSafe(i)) > 400 {
+			continue
+		}
+		budget--
+		g.do(Cmd{Op: OpShape, T: i})
+		g.do(Cmd{Op: OpSlice, T: i, Ranges: nil})
+	}
+	g.tag("reprobe")
+}
+
+func (g *Gen) shapeSafe(i int) (ds []int) {
+	defer func() {
+		if recover() != nil {
+			ds = nil
+		}
+	}()
+	return g.env[i].t.Shape()
+}
